@@ -70,6 +70,14 @@ func coinDenomValues(ff *core.FuncFacts, coins ssa.Value) (denoms []ssa.Value, w
 			denoms = append(denoms, call.Common().Args[0])
 			continue
 		}
+		// coins.Find(d) hands back the coin of denom d (its second result)
+		if ex, ok := e.(*ssa.Extract); ok && ex.Index == 1 {
+			if call, ok := ex.Tuple.(*ssa.Call); ok && core.CalleeName(call.Common()) == "Find" && len(call.Common().Args) == 2 &&
+				call.Common().StaticCallee() != nil && call.Common().StaticCallee().Signature.Recv() != nil && core.NamedName(call.Common().StaticCallee().Signature.Recv().Type()) == "Coins" {
+				denoms = append(denoms, call.Common().Args[1])
+				continue
+			}
+		}
 		wholeCoins = append(wholeCoins, e)
 	}
 	return
